@@ -546,14 +546,30 @@ def check_none_guards(ctx, table):
     modv = b.get("mod")
     strength = "none"
     if isinstance(modv, ast.Name):
-        sts = []
-        for st in G.dominating_stmts(fn, comp[0]):
-            cond = G.raising_condition(st)
-            if cond is not None and G.mentions(cond, modv):
-                s = G.range_strength(ev, m, cond, modv, 1, 10**40)
-                if s is not None:
-                    sts.append(s)
-        strength = G.combine(sts)
+        def guard_strength(stmts):
+            sts = []
+            for st in stmts:
+                cond = G.raising_condition(st)
+                if cond is not None and G.mentions(cond, modv):
+                    s = G.range_strength(ev, m, cond, modv, 1, 10**40)
+                    if s is not None:
+                        sts.append(s)
+            return G.combine(sts)
+
+        strength = guard_strength(G.dominating_stmts(fn, comp[0]))
+        if strength not in ("lower-only", "full"):
+            # or: every definition of the modulus that can be a number is followed, in its own block, by the raising guard
+            # (a definition `mod = None` needs none: there is no modulus then)
+            per_def = []
+            for st in A.body_nodes(fn):
+                if isinstance(st, ast.Assign) and any(isinstance(t, ast.Name) and t.id == modv.id for t in st.targets):
+                    if isinstance(st.value, ast.Constant) and st.value.value is None:
+                        continue
+                    p_ = G.path_to(fn, st)
+                    block, idx = p_[-1] if p_ else ([], 0)
+                    per_def.append(guard_strength(block[idx + 1:]))
+            if per_def:
+                strength = "full" if all(x == "full" for x in per_def) else "lower-only" if all(x in ("lower-only", "full") for x in per_def) else "none"
     ctx.check("C04.N", "_handle_binary_classical_instr:modulus-below-one-raises", strength in ("lower-only", "full"),
               f"no dominating guard raises for every modulus < 1 before the computation (guard strength: {strength})", repo.loc(m, fn), sample={"modulus guard": strength})
     # the modulus register is read for the Mod classes
